@@ -47,6 +47,113 @@ class WeirdEq:
         return "<WeirdEq>"
 
 
+class NpBool:
+    """Like numpy.bool_: truthy / falsy, but not a Python bool (and not JSON-serialisable)."""
+
+    def __init__(self, v):
+        self.v = bool(v)
+
+    def __bool__(self):
+        return self.v
+
+    def __repr__(self):
+        return "NpBool(%r)" % self.v
+
+
+class NpFloat(float):
+    """Like numpy.float64: a float subclass whose comparisons return NpBool."""
+
+    def __eq__(self, o):
+        return NpBool(float.__eq__(self, o))
+
+    def __ne__(self, o):
+        return NpBool(float.__ne__(self, o))
+
+    def __le__(self, o):
+        return NpBool(float.__le__(self, o))
+
+    def __ge__(self, o):
+        return NpBool(float.__ge__(self, o))
+
+    def __lt__(self, o):
+        return NpBool(float.__lt__(self, o))
+
+    def __gt__(self, o):
+        return NpBool(float.__gt__(self, o))
+
+    __hash__ = float.__hash__
+
+
+class NpInt(int):
+    """Like numpy.int64 (but an int subclass): comparisons return NpBool."""
+
+    def __eq__(self, o):
+        return NpBool(int.__eq__(self, o))
+
+    def __ne__(self, o):
+        return NpBool(int.__ne__(self, o))
+
+    def __le__(self, o):
+        return NpBool(int.__le__(self, o))
+
+    def __ge__(self, o):
+        return NpBool(int.__ge__(self, o))
+
+    __hash__ = int.__hash__
+
+
+class Floatable:
+    """Defines __float__ / __int__ / __index__ / __bool__ only (duck number)."""
+
+    def __init__(self, v):
+        self.v = v
+
+    def __float__(self):
+        return float(self.v)
+
+    def __int__(self):
+        return int(self.v)
+
+    def __index__(self):
+        return int(self.v)
+
+    def __bool__(self):
+        return bool(self.v)
+
+    def __repr__(self):
+        return "Floatable(%r)" % (self.v,)
+
+
+class ListSub(list):
+    pass
+
+
+class DictSub(dict):
+    def get(self, k, d=None):
+        return "from-get"
+
+
+class AnyAttr:
+    """__getattr__ answers any name (including _typename)."""
+
+    def __getattr__(self, name):
+        return "attr:" + name
+
+    def __repr__(self):
+        return "<AnyAttr>"
+
+
+class RaisingAttr:
+    def __getattr__(self, name):
+        raise RuntimeError("attribute access fails: " + name)
+
+    def __getitem__(self, k):
+        raise ValueError("item access fails")
+
+    def __repr__(self):
+        return "<RaisingAttr>"
+
+
 def _gen(n):
     for i in range(n):
         yield i
@@ -68,6 +175,10 @@ SCALARS = [
     lambda: Color.RED, lambda: Color.A, lambda: StrSub("sub"), lambda: IntSub(5), lambda: IntSub(2 ** 40),
     lambda: complex(1, 2), lambda: BadStr(), lambda: NoStr(), lambda: WeirdEq(), lambda: object,
     lambda: FaultError("adv"), lambda: ValueError("as value"), lambda: KeyError("k"), lambda: Ellipsis, lambda: NotImplemented,
+    lambda: NpFloat(1.0), lambda: NpFloat(0.0), lambda: NpFloat(2147483648.0), lambda: NpFloat("nan"), lambda: NpInt(1), lambda: NpInt(0),
+    lambda: NpInt(2 ** 31), lambda: NpBool(True), lambda: Floatable(1), lambda: Floatable(1.5), lambda: Floatable(2 ** 40),
+    lambda: "2147483647", lambda: "2147483648", lambda: "1e2", lambda: "0x10", lambda: 2147483647.0, lambda: -2147483648.0,
+    lambda: -2147483649.0, lambda: ValueError, lambda: (lambda: 1),
 ]
 
 CONTAINERS = [
@@ -77,6 +188,9 @@ CONTAINERS = [
     lambda: {"name": 1, "id": [1], "a": {"a": 1}, "x": None, "y": "s"}, lambda: Attrs(a=1, b="x", name=None, id=3.5),
     lambda: Attrs(_typename="T0", a=[1, 2]), lambda: Rec(), lambda: iter([1, 2]), lambda: {"a": float("nan")},
     lambda: [float("nan")], lambda: [float("inf"), 1], lambda: {"a": b"x"}, lambda: [b"x"], lambda: dict.fromkeys("abcdefgh", 10 ** 400),
+    lambda: ListSub([1, 2]), lambda: ListSub(), lambda: DictSub(a=1, _typename="T0"), lambda: AnyAttr(), lambda: RaisingAttr(),
+    lambda: __import__("collections").deque([1, 2]), lambda: __import__("collections").UserList([1]), lambda: __import__("array").array("i", [1, 2]),
+    lambda: __import__("types").MappingProxyType({"a": 1}), lambda: __import__("collections").OrderedDict(a=1),
 ]
 
 
